@@ -58,9 +58,12 @@ structure WTh where
   script : List WOp
   /-- results reported by `tryPop`/`popOrWait` (true = an element was taken), newest first -/
   res : List Bool
+  /-- answers the `waitCondition` callback of `PopOrWait` gave so far, newest first (ghost: the driver compares
+  it with the answers the harness's callback really gave) -/
+  cb : List Bool
   deriving DecidableEq, Repr
 
-def WTh.new (script : List WOp) : WTh := ⟨.idle, script, []⟩
+def WTh.new (script : List WOp) : WTh := ⟨.idle, script, [], []⟩
 
 /-- The loop condition of a waiter: it keeps waiting while this holds. -/
 def mustWait : WOp → Int → Prop
@@ -91,8 +94,8 @@ def critStep (s : Mon) (t : WTh) (op : WOp) : List (Mon × WTh) :=
     else [({ s with m := false }, { t with pc := .idle })]
   | .popOrWait =>
     if s.value ≤ 0 then
-      [(s, { t with pc := .critW }),                                         -- waitCondition() = true
-       ({ s with m := false }, { t with pc := .idle, res := false :: t.res })] -- waitCondition() = false
+      [(s, { t with pc := .critW, cb := true :: t.cb }),                     -- waitCondition() = true
+       ({ s with m := false }, { t with pc := .idle, res := false :: t.res, cb := false :: t.cb })] -- … = false
     else [({ s with m := false, value := s.value - 1 }, { t with pc := .bcD, res := true :: t.res })]
   | .shutdown => [({ s with m := false, genI := s.genI + 1 }, { t with pc := .idle })]
 
